@@ -5,6 +5,7 @@ Indices out of range make an edit a no-op.
 -/
 import AkdModel.Proofs
 import AkdModel.Wire
+import AkdModel.Insert
 namespace Akd.Adv
 open Akd.Wire
 
@@ -83,6 +84,85 @@ def parseNonMemEdit? (tok : String) : Option NonMemEdit :=
   | ["childlabel", i, l] => do pure (.childLabel (← i.toNat?) (← parseLabel? l))
   | ["childempty", i] => i.toNat?.map .childEmpty
   | "mp" :: rest => (parseMemEdit? (":".intercalate rest)).map .mem
+  | _ => none
+
+/-! ### audit proofs: edits of a single-epoch proof whose lists have been sorted by label text -/
+
+inductive AuditEdit where
+  | insAdd (l : NodeLabel) (v : List UInt8)
+  | insDrop (j : Nat) | unchDrop (j : Nat) | insDup (j : Nat) | unchDup (j : Nat)
+  | unchToIns (j : Nat) | insToUnch (j : Nat)
+  | insRelabel (j : Nat) (l : NodeLabel) | unchRelabel (j : Nat) (l : NodeLabel)
+  /-- a new inserted leaf whose label extends unchanged node `j` (`1` then zeros up to 256 bits) -/
+  | insExt (j : Nat) (v : List UInt8)
+  /-- inserted `i` takes the label of unchanged `j` -/
+  | insCopyLabel (i j : Nat)
+  /-- a new inserted element labelled with the first `n` bits of unchanged `j`'s label -/
+  | insAddPrefix (j n : Nat) (v : List UInt8)
+  | endRebuilt          -- the server publishes whatever the auditor's rebuild hashes to
+  | epochPlus (d : Nat)
+
+def dropAt {α} (xs : List α) (j : Nat) : List α := xs.take j ++ xs.drop (j + 1)
+
+/-- `l` followed by a one bit and zeros, 256 bits long (identity on 256-bit labels) -/
+def extend256 (l : NodeLabel) : NodeLabel :=
+  if l.len ≥ 256 then l
+  else
+    let n := (l.getPrefix l.len)
+    ⟨Vector.ofFn fun (i : Fin 32) =>
+        if i.val = l.len / 8 then n.val[i] ||| ((1 : UInt8) <<< (7 - l.len % 8).toUInt8) else n.val[i], 256⟩
+
+structure AuditCase where
+  proof : NodeStore.SingleAppendOnlyProof
+  endRebuilt : Bool := false
+  epochPlus : Nat := 0
+
+def applyAudit (a : AuditCase) : AuditEdit → AuditCase
+  | .insAdd l v => { a with proof := { a.proof with inserted := a.proof.inserted ++ [⟨l, .raw v⟩] } }
+  | .insDrop j => { a with proof := { a.proof with inserted := dropAt a.proof.inserted j } }
+  | .unchDrop j => { a with proof := { a.proof with unchanged := dropAt a.proof.unchanged j } }
+  | .insDup j => match a.proof.inserted[j]? with
+    | some x => { a with proof := { a.proof with inserted := a.proof.inserted ++ [x] } }
+    | none => a
+  | .unchDup j => match a.proof.unchanged[j]? with
+    | some x => { a with proof := { a.proof with unchanged := a.proof.unchanged ++ [x] } }
+    | none => a
+  | .unchToIns j => match a.proof.unchanged[j]? with
+    | some x => { a with proof := { inserted := a.proof.inserted ++ [x], unchanged := dropAt a.proof.unchanged j } }
+    | none => a
+  | .insToUnch j => match a.proof.inserted[j]? with
+    | some x => { a with proof := { inserted := dropAt a.proof.inserted j, unchanged := a.proof.unchanged ++ [x] } }
+    | none => a
+  | .insRelabel j l => { a with proof := { a.proof with inserted := modifyAt a.proof.inserted j fun x => { x with label := l } } }
+  | .unchRelabel j l => { a with proof := { a.proof with unchanged := modifyAt a.proof.unchanged j fun x => { x with label := l } } }
+  | .insExt j v => match a.proof.unchanged[j]? with
+    | some u => { a with proof := { a.proof with inserted := a.proof.inserted ++ [⟨extend256 u.label, .raw v⟩] } }
+    | none => a
+  | .insCopyLabel i j => match a.proof.unchanged[j]? with
+    | some u => { a with proof := { a.proof with inserted := modifyAt a.proof.inserted i fun x => { x with label := u.label } } }
+    | none => a
+  | .insAddPrefix j n v => match a.proof.unchanged[j]? with
+    | some u => { a with proof := { a.proof with inserted := a.proof.inserted ++ [⟨u.label.getPrefix n, .raw v⟩] } }
+    | none => a
+  | .endRebuilt => { a with endRebuilt := true }
+  | .epochPlus d => { a with epochPlus := a.epochPlus + d }
+
+def parseAuditEdit? (tok : String) : Option AuditEdit :=
+  match tok.splitOn ":" with
+  | ["ins.add", l, v] => do pure (.insAdd (← parseLabel? l) (← parseHex? v))
+  | ["ins.drop", j] => j.toNat?.map .insDrop
+  | ["unch.drop", j] => j.toNat?.map .unchDrop
+  | ["ins.dup", j] => j.toNat?.map .insDup
+  | ["unch.dup", j] => j.toNat?.map .unchDup
+  | ["unch.toins", j] => j.toNat?.map .unchToIns
+  | ["ins.tounch", j] => j.toNat?.map .insToUnch
+  | ["ins.relabel", j, l] => do pure (.insRelabel (← j.toNat?) (← parseLabel? l))
+  | ["unch.relabel", j, l] => do pure (.unchRelabel (← j.toNat?) (← parseLabel? l))
+  | ["ins.ext", j, v] => do pure (.insExt (← j.toNat?) (← parseHex? v))
+  | ["ins.copylabel", i, j] => do pure (.insCopyLabel (← i.toNat?) (← j.toNat?))
+  | ["ins.addprefix", j, n, v] => do pure (.insAddPrefix (← j.toNat?) (← n.toNat?) (← parseHex? v))
+  | ["end", "rebuilt"] => some .endRebuilt
+  | ["epoch", d] => d.toNat?.map .epochPlus
   | _ => none
 
 end Akd.Adv
